@@ -122,9 +122,26 @@ class GeckoSnapshot:
             bytearray([int(b.strip()[1:-1], 16) for b in groups[0].split(",")])
         )
 
+    @staticmethod
+    def _unrepr(data):
+        """Turn the tail of a logged bytes repr back into bytes. The quote that
+        opened the repr is not known, so a quote can appear bare (b"...'...") or
+        escaped (b'...\\'...') and must not be confused with an escaped backslash
+        followed by a bare quote."""
+        out = []
+        i = 0
+        while i < len(data):
+            ch = data[i]
+            if ch == "\\" and i + 1 < len(data):
+                out.append("\\x27" if data[i + 1] == "'" else data[i : i + 2])
+                i += 2
+            else:
+                out.append("\\x27" if ch == "'" else ch)
+                i += 1
+        return ast.literal_eval("b'{0}'".format("".join(out)))
+
     def _re_data_segment(self, groups):
-        data = groups[0].replace("'", "\\x27")
-        bytes_ = ast.literal_eval(f"b'{data}'")
+        bytes_ = self._unrepr(groups[0])
         self._status_block_handler.handle(bytes_, None)
         self._status_block_segments.append(self._status_block_handler.data)
         if self._status_block_handler.next == 0:
